@@ -10,6 +10,10 @@ Definition mat := (vec * vec * vec)%type.
 
 Definition nsqrt (x : float) : float := PrimFloat.sqrt x.
 Definition nabs (x : float) : float := PrimFloat.abs x.
+(* cube root by Newton iteration from above (evaluation aid only, compared under tolerance) *)
+Fixpoint newton_cbrt (n : nat) (x y : float) : float :=
+  match n with O => y | S k => newton_cbrt k x ((2 * y + x / (y * y)) / 3) end.
+Definition ncbrt (x : float) : float := if PrimFloat.leb x 0 then 0 else newton_cbrt 200 x (if PrimFloat.ltb x 1 then 1 else x).
 Definition nltb (a b : float) : bool := PrimFloat.ltb a b.
 Definition nleb (a b : float) : bool := PrimFloat.leb a b.
 Definition ngtb (a b : float) : bool := PrimFloat.ltb b a.
